@@ -6,6 +6,7 @@ use crate::log::*;
 use crate::report::{Cfg, Report};
 use crate::value::*;
 use crate::world::*;
+use rxrust::subscription::Subscription as _;
 use serde_json::json;
 
 #[derive(Clone, Debug, PartialEq, Eq, Hash)]
@@ -14,6 +15,11 @@ pub enum Trig {
   Complete,
   Error,
   Unsub,
+  /// the subscription handle is dropped WITHOUT being unsubscribed (not an event for finalize)
+  DropHandle,
+  /// the hot source subject is itself unsubscribed: it drops its observers without any terminal
+  /// (not an event for the subscription either)
+  SourceGone,
 }
 
 #[derive(Clone, Debug, PartialEq, Eq, Hash)]
@@ -59,6 +65,19 @@ pub fn random_case(r: &mut Rng, max_len: usize) -> Case {
       _ => Trig::Unsub,
     })
     .collect();
+  let mut history: Vec<Trig> = history;
+  // one case in eight ends with the handle dropped and the source gone - no event at all
+  let quiet_end = r.chance(1, 8);
+  if quiet_end {
+    history.retain(|t| matches!(t, Trig::Item));
+    if r.chance(1, 2) {
+      history.push(Trig::DropHandle);
+      history.push(Trig::SourceGone);
+    } else {
+      history.push(Trig::SourceGone);
+      history.push(Trig::DropHandle);
+    }
+  }
   let create_src = r.chance(1, 3);
   let src_kind = [0u8, 0, 0, 1, 2][r.below(5)];
   let downstream = if create_src && src_kind == 0 && r.chance(1, 3) { Some([Op::Take(1), Op::Take(2), Op::First][r.below(3)].clone()) } else { None };
@@ -68,7 +87,8 @@ pub fn random_case(r: &mut Rng, max_len: usize) -> Case {
     src_kind,
     flavor: if r.chance(1, 2) { Flavor::Local } else { Flavor::Threads },
     history,
-    guard: r.chance(1, 4),
+    // (dropping an unsubscribe_when_dropped guard IS an unsubscription: quiet ends use plain handles)
+    guard: !quiet_end && r.chance(1, 4),
     stacked: r.chance(1, 4),
     downstream,
   }
@@ -121,6 +141,21 @@ pub fn observe(c: &Case) -> Result<Obs, String> {
         Trig::Complete => Some(N::Complete),
         Trig::Error => Some(N::Err(7)),
         Trig::Unsub => None,
+        Trig::DropHandle => {
+          // forget nothing, unsubscribe nothing: the handle simply goes out of scope
+          let h = std::mem::replace(&mut w.subs[0], Sub::Gone);
+          drop(h);
+          continue;
+        }
+        Trig::SourceGone => {
+          if !c.create_src && c.src_kind != 1 {
+            match c.flavor {
+              Flavor::Threads => w.t.hot[0].clone().unsubscribe(),
+              _ => w.l.hot[0].clone().unsubscribe(),
+            }
+          }
+          continue;
+        }
       };
       match n {
         Some(n) => {
@@ -248,11 +283,14 @@ pub fn run(cfg: &Cfg, rep: &mut Report) {
     rep.set("operators_covered", if c.flavor == Flavor::Threads { "finalize_threads" } else { "finalize" });
     if let Ok(obs) = &o {
       rep.events += obs.evs.len() as u64;
-      let triggers = c.history.iter().filter(|t| !matches!(t, Trig::Item)).count();
+      let triggers = c.history.iter().filter(|t| !matches!(t, Trig::Item | Trig::DropHandle | Trig::SourceGone)).count();
       if triggers >= 2 {
         rep.nontrivial.insert(hash64(&c));
       }
-      let first = c.history.iter().find(|t| !matches!(t, Trig::Item));
+      let first = c.history.iter().find(|t| !matches!(t, Trig::Item | Trig::DropHandle | Trig::SourceGone));
+      if c.history.contains(&Trig::DropHandle) {
+        rep.count("histories_ending_without_any_event", 1);
+      }
       if let Some(f) = first {
         rep.count(&format!("first_trigger_{:?}", f).to_lowercase(), 1);
       }
@@ -269,7 +307,7 @@ pub fn run(cfg: &Cfg, rep: &mut Report) {
           j += 1
         }
       }
-      let first = cur.history.iter().find(|t| !matches!(t, Trig::Item)).map(|t| format!("{:?}", t).to_lowercase()).unwrap_or("none".into());
+      let first = cur.history.iter().find(|t| !matches!(t, Trig::Item | Trig::DropHandle | Trig::SourceGone)).map(|t| format!("{:?}", t).to_lowercase()).unwrap_or("none".into());
       let fl = if c.flavor == Flavor::Threads { "finalize_threads" } else { "finalize" };
       rep.violation(&kind, &format!("{}[first={}]", fl, first), &id, json!({"case": format!("{:?}", c), "shrunk_history": format!("{:?}", cur.history), "result": detail}));
     } else if let Ok(obs) = &o {
